@@ -1,4 +1,5 @@
 import Cadence.Proofs.QueueProps
+import Cadence.Proofs.Queue0Props
 /-!
 # C09 — the last drop drains, then stops and releases the wrapped sink
 -/
@@ -37,5 +38,59 @@ example : ((runLabels (init (some 1) false : St Nat)
     [.emitTry 0 1, .emitCount, .wCheck, .wRecv, .wCount, .emitTry 0 2, .emitCount, .drop 0,
      .stopFlag, .stopPill, .wFinish .panic, .wCheck, .wRecv, .wCount, .wFinish (.err 3), .wCheck, .release]).map
       (fun s => (s.wrappedLog, s.released))) = some ([1, 2], true) := by decide
+
+/-! ## capacity 0 (rendezvous channel): the model `Cadence.Model.Queue0`
+
+The theorems above carry `cap ≠ some 0`; these cover the remaining capacity, on the model of the
+polling worker loop (`recv_timeout` + re-test of the stop flag, repair cea8c71). -/
+
+/-- capacity 0: dropping a handle is a single enabled step -/
+theorem rendezvous_drop_never_blocks (s : Queue0.St μ) (h : Nat) (hh : h ∈ s.handles) :
+    (Queue0.step s (.drop h)).isSome = true := by
+  simp only [Queue0.step, hh, if_true]; split <;> rfl
+
+/-- capacity 0: the stop request survives even though the marker can never be queued -/
+theorem rendezvous_stop_request_survives {hh} (s : Queue0.St μ) (h : Queue0.Reachable true hh s) (h0 : s.handles = []) :
+    s.stopStage ≠ .idle ∧ (s.stopStage = .done → s.stopReq = true) :=
+  ⟨(Queue0.reachable_inv s h).stopIdle h0, fun hd => (Queue0.reachable_inv s h).stopSet (Or.inr hd)⟩
+
+/-- capacity 0, polling worker: after the last drop some system step is enabled until the wrapped sink
+is released, and once `stop()` has set the flag every run of system steps is finite (bounded by
+`Queue0.measure`), whatever the worker was doing when the handle went and whatever the wrapped sink answers -/
+theorem rendezvous_last_drop_terminates {hh} (s : Queue0.St μ) (h : Queue0.Reachable true hh s) (h0 : s.handles = []) :
+    (s.released = false → ∃ l, Queue0.isSystem l = true ∧ (Queue0.step s l).isSome = true) ∧
+    (s.stopReq = true → ∀ ls : List (Queue0.Label μ), (∀ l ∈ ls, Queue0.isSystem l = true) →
+      (Queue0.runLabels s ls).isSome = true → ls.length ≤ Queue0.measure s) :=
+  ⟨fun hr => Queue0.progress s h h0 hr, fun hr ls hw hrun => Queue0.system_runs_bounded s ls hr hw hrun⟩
+
+/-- capacity 0: the worker exits, and the wrapped sink is released, only after every accepted metric
+has been handed over (with either worker loop) -/
+theorem rendezvous_drains_before_release {poll hh} (s : Queue0.St μ) (h : Queue0.Reachable poll hh s) :
+    (s.phase = .exited → s.wrappedLog = s.accepted) ∧
+    (s.released = true → s.phase = .exited ∧ s.handles = [] ∧ s.stopStage = .done ∧ s.wrappedLog = s.accepted) := by
+  have hi := Queue0.reachable_inv s h
+  have hex : s.phase = .exited → s.wrappedLog = s.accepted := fun hp => by
+    have := hi.deliv; rw [hp] at this; simpa [Queue0.inflight] using this.symm
+  exact ⟨hex, fun hr => ⟨(hi.rel hr).1, (hi.rel hr).2.1, (hi.rel hr).2.2, hex (hi.rel hr).1⟩⟩
+
+/-- Finding 4 as a theorem about the model: with a *blocking* `recv()` (the loop before cea8c71) a
+capacity-0 sink reaches a state in which no handle is left, `stop()` has finished, the wrapped sink is
+not released and no step of the worker or the stopper is enabled — the worker waits forever.  The
+history: the worker passes the flag test, the last handle is dropped and `stop()` runs (the marker
+finds no waiting receiver), then the worker blocks. -/
+theorem rendezvous_blocking_recv_loses_stop :
+    ∃ s : Queue0.St Nat, Queue0.Reachable false false s ∧ s.handles = [] ∧ s.stopStage = .done ∧ s.released = false ∧
+      ∀ l, Queue0.isSystem l = true → Queue0.step s l = none := by
+  refine ⟨{ (Queue0.init false false : Queue0.St Nat) with handles := [], stopReq := true, stopStage := .done, phase := .waiting },
+    ?_, rfl, rfl, rfl, ?_⟩
+  · exact Queue0.runLabels_reachable _ Queue0.Reachable.init [.wCheck, .drop 0, .stopFlag, .stopPill, .wEnter] _ rfl
+  · intro l hl
+    cases l <;> first | rfl | simp [Queue0.isSystem] at hl
+
+-- non-vacuity: capacity 0, the same history with the polling loop: the time-out brings the worker back
+-- to the flag test, it exits and the wrapped sink is released; a metric handed over before is delivered
+example : ((Queue0.runLabels (Queue0.init true false : Queue0.St Nat)
+    [.wCheck, .wEnter, .emitTry 0 7, .wTake, .wFinish .panic, .wCheck, .drop 0, .stopFlag, .stopPill, .wEnter,
+     .wTimeout, .wCheck, .release]).map (fun s => (s.wrappedLog, s.released))) = some ([7], true) := by decide
 
 end C09
